@@ -345,6 +345,9 @@ extern "C" fn crash_handler(sig: libc::c_int) {
 
 /// write <outdir>/crash.txt if the process dies from a signal
 pub fn install_crash_handler(a: &Args) {
+    if cfg!(miri) {
+        return; // the interpreter reports undefined behaviour itself (and has no signal())
+    }
     std::fs::create_dir_all(&a.out).ok();
     let path = std::ffi::CString::new(a.out.join("crash.txt").to_str().unwrap()).unwrap();
     let fd = unsafe { libc::open(path.as_ptr(), libc::O_WRONLY | libc::O_CREAT | libc::O_TRUNC, 0o644) };
